@@ -773,9 +773,30 @@ func (x *gen) unit() unit {
 		return x.soup()
 	case 17:
 		return x.raw()
+	case 18:
+		return x.appendHostile()
 	default:
 		return x.valid("NOOP")
 	}
+}
+
+// hostileMessages: small message literals whose header values the message parsers stumble over (a comment, quoted
+// string, group or domain literal that is never closed; an empty boundary; an embedded message). A well-formed APPEND
+// that carries one of them is a complete command: it is answered, whatever the answer is.
+var hostileMessages = []string{
+	"From: a@b.c (unfinished\r\nDate: Mon, 7 Feb 1994 21:52:25 -0800 (PST)\r\n\r\nx\r\n", "From: a@b.c\r\nDate: Mon, 7 Feb 1994 21:52:25 -0800 (PST)\r\nTo: other@example.com (unfinished\r\n\r\nx\r\n", "From: a@b.c\r\nDate: Mon, 7 Feb 1994 21:52:25 -0800 (PST)\r\nCc: x@y (a (b (c\r\n\r\n",
+	"From: \"never closed <a@b.c>\r\nDate: Mon, 7 Feb 1994 21:52:25 -0800 (PST)\r\n\r\n", "From: a@b.c\r\nDate: Mon, 7 Feb 1994 21:52:25 -0800 (PST)\r\nBcc: group: x@y, z@w\r\n\r\n", "From: <a@b.c\r\nDate: Mon, 7 Feb 1994 21:52:25 -0800 (PST)\r\nSender: ((((((\r\n\r\n",
+	"From: a@b.c\r\nDate: Mon, 7 Feb 1994 21:52:25 -0800 (PST)\r\nReply-To: a@[1.2.3\r\nDate: (((\r\n\r\n", "From: a@b.c\r\nDate: Mon, 7 Feb 1994 21:52:25 -0800 (PST)\r\nContent-Type: multipart/mixed; boundary=\"\r\n\r\n--\r\n",
+	"From: a@b.c\r\nDate: Mon, 7 Feb 1994 21:52:25 -0800 (PST)\r\nContent-Type: message/rfc822\r\n\r\nTo: x (y\r\n", "From: a@b.c\r\nDate: Mon, 7 Feb 1994 21:52:25 -0800 (PST)\r\nTo: \\\r\n\r\n", "From: a@b.c\r\nDate: Mon, 7 Feb 1994 21:52:25 -0800 (PST)\r\nSubject: =?utf-8?q?=\r\nTo: (\r\n\r\n",
+}
+
+func (x *gen) appendHostile() unit {
+	c := command.Command{Tag: x.g.Tag(), Payload: &command.Append{Mailbox: "INBOX", Literal: []byte(pickOf(x, "hostile-message", hostileMessages))}}
+
+	enc, _ := c10.Encode(c10.RapidSrc{T: x.t}, c, c10.Avoid{})
+	tag, has := lineTag(enc.Bytes)
+
+	return unit{B: enc.Bytes, Kind: unitValid, Label: "append-hostile-message", Cmd: c, Literals: enc.Literals, Accountable: true, Tag: tag, HasTag: has}
 }
 
 // stream draws a command stream: valid commands with damaged ones in between, possibly cut at a drawn point.
